@@ -421,6 +421,38 @@ Definition mfi_step (st : metric * list N) (e : entry) : metric * list N :=
 Definition metric_from_index (osz : N) (idx : list N) : metric :=
   fst (fold_left mfi_step (rev (walk osz idx)) (metric0, [])).
 
+(* The same walk with the bloom filter as an ORACLE: [ans] are the answers bf.Test gave, one
+   per entry in walk order (last entry first).  willf/bloom with p = 0.001 can answer "seen"
+   for a key that was never added (false positive), never the converse. *)
+Definition mfi_metric_step (seen : bool) (m : metric) (e : entry) : metric :=
+  let m0 := maybe_max m (e_key e) in
+  let m1 := if size_is_valid (e_size e) then add_fileb m0 (e_size e) else m0 in
+  if negb seen then incr_file m1
+  else (let m2 := incr_del m1 in if size_is_valid (e_size e) then add_delb m2 (e_size e) else m2).
+Fixpoint mfi_oracle (m : metric) (es : list entry) (ans : list bool) : metric :=
+  match es, ans with
+  | e :: r, a :: ans' => mfi_oracle (mfi_metric_step a m e) r ans'
+  | _, _ => m
+  end.
+Definition metric_from_index_o (osz : N) (idx : list N) (ans : list bool) : metric :=
+  mfi_oracle metric0 (rev (walk osz idx)) ans.
+(* the answers an exact set would give *)
+Fixpoint exact_answers (seen : list N) (es : list entry) : list bool :=
+  match es with
+  | [] => []
+  | e :: r => let a := existsb (N.eqb (e_key e)) seen in
+              a :: exact_answers (if a then seen else e_key e :: seen) r
+  end.
+Fixpoint bool_list_eqb (a b : list bool) : bool :=
+  match a, b with
+  | [], [] => true
+  | x :: a', y :: b' => Bool.eqb x y && bool_list_eqb a' b'
+  | _, _ => false
+  end.
+(* known finding 3: some bloom answer is a false positive *)
+Definition trig_bloom_fp (osz : N) (idx : list N) (ans : list bool) : bool :=
+  negb (bool_list_eqb ans (exact_answers [] (rev (walk osz idx)))).
+
 (* ---------- LevelDbNeedleMap ---------- *)
 Record ldb := { l_db : omap; l_met : metric; l_idx : list N }.
 Definition ldb0 : ldb := {| l_db := []; l_met := metric0; l_idx := [] |}.
